@@ -40,15 +40,16 @@ type Scope struct {
 
 // Case is one record printed by TLC: the program and everything the specification says about it.
 type Case struct {
-	P      []Scope               `json:"p"`
-	Reject bool                  `json:"reject"`
-	Why    string                `json:"why"`
-	Cls    []map[string]string   `json:"cls"`
-	Cap    []map[string]bool     `json:"cap"`
-	Flags  []map[string][]string `json:"flags"`
-	Log    []string              `json:"log"`
-	Org    []string              `json:"org"`
-	SpecOK bool                  `json:"specok"`
+	P       []Scope               `json:"p"`
+	Reject  bool                  `json:"reject"`
+	Why     string                `json:"why"`
+	Cls     []map[string]string   `json:"cls"`
+	Cap     []map[string]bool     `json:"cap"`
+	ClsCell []bool                `json:"clscell"`
+	Flags   []map[string][]string `json:"flags"`
+	Log     []string              `json:"log"`
+	Org     []string              `json:"org"`
+	SpecOK  bool                  `json:"specok"`
 }
 
 // Prologue defines the logging scaffold (vetted core of gpython only); it is executed in the same
@@ -62,6 +63,16 @@ def L(v):
 def REG(f, a):
     FNS.append([f, a])
     return f
+CLSS = []
+def REGC(c, n):
+    CLSS.append([c, n])
+def CN(c):
+    i = len(CLSS) - 1
+    while i >= 0:
+        if CLSS[i][0] is c:
+            return CLSS[i][1]
+        i -= 1
+    return 'unregistered'
 `
 
 // Epilogue calls every function object registered before it started once more.
@@ -156,7 +167,7 @@ func elts(p []Scope, s int) string {
 	for i, ev := range p[s-1].Ev {
 		switch ev.Op {
 		case "use":
-			e = append(e, "L("+ev.N+")")
+			e = append(e, useExpr(ev.N))
 		case "child":
 			if p[ev.C-1].Kind == "lambda" {
 				e = append(e, fmt.Sprintf("%s(%s)", lambdaExpr(p, ev.C), kwArgs(&p[ev.C-1], fmt.Sprintf("a%d.%d", s, i+1))))
@@ -166,6 +177,15 @@ func elts(p []Scope, s int) string {
 		}
 	}
 	return "[" + strings.Join(e, ", ") + "]"
+}
+
+// useExpr logs the value of a name; the class object __class__ refers to is logged by the name it
+// was registered under right after its class statement.
+func useExpr(n string) string {
+	if n == "__class__" {
+		return "L(CN(__class__))"
+	}
+	return "L(" + n + ")"
 }
 
 func guarded(ind string, body ...string) []string {
@@ -186,7 +206,9 @@ func body(p []Scope, s int, ind string) []string {
 		case "locset":
 			out = append(out, fmt.Sprintf("%slocals()['%s'] = 'k%d.%d'", ind, ev.N, s, i+1))
 		case "use":
-			out = append(out, guarded(ind, "L("+ev.N+")")...)
+			out = append(out, guarded(ind, useExpr(ev.N))...)
+		case "supref":
+			out = append(out, ind+"super")
 		case "del":
 			out = append(out, guarded(ind, "del "+ev.N)...)
 		case "global", "nonlocal":
@@ -212,6 +234,7 @@ func body(p []Scope, s int, ind string) []string {
 				}
 				out = append(out, fmt.Sprintf("%sclass C%d:", ind, c))
 				out = append(out, inner...)
+				out = append(out, fmt.Sprintf("%sREGC(C%d, 'C%d')", ind, c, c))
 			case "lambda":
 				out = append(out, guarded(ind, fmt.Sprintf("l%d = %s", c, lambdaExpr(p, c)))...)
 			case "comp":
@@ -243,10 +266,11 @@ func Kinds(p []Scope, s int) string {
 
 // Block is what the real symbol table says about one block, for the names asked about.
 type Block struct {
-	Type  string            // module | function | class
-	Name  string            // block name ("top", function/class name, lambda, listcomp)
-	Scope map[string]string // name -> "-" | local | global_explicit | global_implicit | free | cell
-	Cap   map[string]bool   // name -> the block receives the cell from its definer (free, or DefFreeClass)
+	Type              string            // module | function | class
+	Name              string            // block name ("top", function/class name, lambda, listcomp)
+	Scope             map[string]string // name -> "-" | local | global_explicit | global_implicit | free | cell
+	Cap               map[string]bool   // name -> the block receives the cell from its definer (free, or DefFreeClass)
+	NeedsClassClosure bool              // class block: a closure over __class__ is created
 }
 
 var scopeNames = map[symtable.Scope]string{symtable.ScopeInvalid: "-", symtable.ScopeLocal: "local",
@@ -273,7 +297,7 @@ func Symtable(src string, names []string) (blocks []Block, err error) {
 	}
 	var walk func(t *symtable.SymTable)
 	walk = func(t *symtable.SymTable) {
-		b := Block{Type: typeNames[t.Type], Name: t.Name, Scope: map[string]string{}, Cap: map[string]bool{}}
+		b := Block{Type: typeNames[t.Type], Name: t.Name, Scope: map[string]string{}, Cap: map[string]bool{}, NeedsClassClosure: t.NeedsClassClosure}
 		for _, n := range names {
 			sym, ok := t.Symbols[n]
 			if !ok {
